@@ -73,48 +73,21 @@ type RType[T any] struct {
 // Retry tries to invoke the callback function `n` times.
 // It runs until the number of attempts is reached or the returned value of the callback function is nil.
 func (v RType[T]) Retry(n int, fn func(T) error) (int, error) {
+	var (
+		err     error
+		attempt int
+	)
+
 	if n < 0 {
-		return 0, fmt.Errorf("the number of attempts should be a positive number, got %v", n)
+		return attempt, fmt.Errorf("the number of attempts should be a positive number, got %v", n)
 	}
 
-	var inl1_v0 time.Duration
-	var inl1_v1 int
-	var inl1_v2 error
-inl1done:
-	switch {
-	default:
-		var n int = n
-		_ = n
-		var delay time.Duration = 0
-		_ = delay
-		var fn func(elapsed time.Duration) error = func(time.Duration) error {
-			return fn(v.Input)
+	for attempt < n {
+		if err = fn(v.Input); err == nil {
+			return attempt, nil
 		}
-		_ = fn
-		var attempt int
-		start := time.Now()
-		for {
-			err := fn(time.Since(start))
-			if err == nil {
-				{
-					inl1_v0, inl1_v1, inl1_v2 = time.Since(start), attempt, nil
-					break inl1done
-				}
-			}
-			attempt++
-
-			if delay > 0 {
-				<-time.After(delay)
-			}
-			if attempt >= n {
-				{
-					inl1_v0, inl1_v1, inl1_v2 = time.Since(start), attempt, err
-					break inl1done
-				}
-			}
-		}
+		attempt++
 	}
-	_, attempt, err := inl1_v0, inl1_v1, inl1_v2
 
 	return attempt, err
 }
@@ -122,32 +95,22 @@ inl1done:
 // RetryWithDelay tries to invoke the callback function `n` times, but with a delay between each call.
 // It runs until the number of attempts is reached or the error return value of the callback function is nil.
 func (v RType[T]) RetryWithDelay(n int, delay time.Duration, fn func(time.Duration, T) error) (time.Duration, int, error) {
-	{
-		var n int = n
-		_ = n
-		var delay time.Duration = delay
-		_ = delay
-		var fn func(elapsed time.Duration) error = func(elapsed time.Duration) error {
-			return fn(elapsed, v.Input)
-		}
-		_ = fn
-		var attempt int
-		start := time.Now()
-		for {
-			err := fn(time.Since(start))
-			if err == nil {
-				return time.Since(start), attempt, nil
-			}
-			attempt++
+	var (
+		err     error
+		attempt int
+	)
 
-			if delay > 0 {
-				<-time.After(delay)
-			}
-			if attempt >= n {
-				return time.Since(start), attempt, err
-			}
+	start := time.Now()
+	for attempt < n {
+		err = fn(time.Since(start), v.Input)
+		if err == nil {
+			return time.Since(start), attempt, nil
 		}
+		<-time.After(delay)
+		attempt++
 	}
+
+	return time.Since(start), attempt, err
 }
 
 type debouncer struct {
@@ -161,13 +124,13 @@ type debouncer struct {
 // It returns a callback function which will be invoked after the predefined delay and
 // also a cancel method which should be invoked to cancel a scheduled debounce.
 func NewDebounce(wait time.Duration) (func(f func()), func()) {
-	d := &debouncer{duration: wait}
+	db := &debouncer{duration: wait}
 	return func(f func()) {
-		d.add(f)
-	}, d.cancel
+		db.add(f)
+	}, db.cancel
 }
 
-// add method schedules the execution of the passed in function after a predefined delay.
+// schedule method schedules the execution of the passed in function after a predefined delay.
 func (d *debouncer) add(f func()) {
 	d.mu.Lock()
 	defer d.mu.Unlock()
@@ -179,7 +142,7 @@ func (d *debouncer) add(f func()) {
 	d.timer = time.AfterFunc(d.duration, f)
 }
 
-// cancel the execution of a scheduled debounce function.
+// stop cancels the execution of a scheduled debounce function.
 func (d *debouncer) cancel() {
 	d.mu.Lock()
 	defer d.mu.Unlock()
